@@ -55,7 +55,7 @@ def analyse(cases, results):
     blocks, meta = [], []
     for case, r, calls in results:
         for cin, cout, m in calls:
-            if cout.get("outcome") != "ok" or cout["result"]["metrics"]["status"] != "modified":
+            if not C.is_modified(cout):
                 continue
             content = cout["result"]["content"]
             mp, err = decode_trailer(content)
